@@ -492,8 +492,12 @@ def Store.put (s : Store) (name : Name) (ser : Series) : Store := { s with vars 
 /-- The keys of the instance `__dict__`: a variable `X` is stored under `_X`; every entry of the attribute list is
     stored under its own name (this includes the container's own `span`, `index`, `_attributes`, `_strict`) except
     the class properties `strict` / `values`, whose first use is only recorded in the list; plus `extraKeys`. -/
-def Store.dictKeys (s : Store) : List Name :=
-  s.index.map ("_" ++ ·) ++ s.attrs.filter (fun a => a != "strict" && a != "values") ++ s.extraKeys
+def Store.varKeys (s : Store) : List Name := s.index.map ("_" ++ ·)
+
+def Store.attrKeys (s : Store) : List Name :=
+  s.attrs.filter (fun a => a != "strict" && a != "values") ++ s.extraKeys
+
+def Store.dictKeys (s : Store) : List Name := s.varKeys ++ s.attrKeys
 
 def firstIdx : List Nat → Nat → Option Nat
   | [], _ => none
@@ -562,18 +566,21 @@ structure Cfg where
   /-- `add_variable(name)` refuses a name whose storage key `'_' + name` is already in `__dict__` (as shipped: it
       overwrites that entry — `attributes` / `strict` clobber the container's own `_attributes` / `_strict`). -/
   addVarChecksKeys : Bool
+  /-- `add_attribute(name)` — hence `obj.name = v` for a new name — refuses a name that is already a key of
+      `__dict__` (as shipped: `obj._A = v` replaced the array of variable `A`). -/
+  addAttrChecksKeys : Bool
   deriving Repr, DecidableEq, Inhabited
 
 /-- The code at the pinned commit. -/
-def Cfg.shipped : Cfg := ⟨false, ["strict"], false, false⟩
+def Cfg.shipped : Cfg := ⟨false, ["strict"], false, false, false⟩
 
 /-- The code with the three candidate fixes applied. -/
-def Cfg.fixed : Cfg := ⟨true, ["strict", "values"], true, true⟩
+def Cfg.fixed : Cfg := ⟨true, ["strict", "values"], true, true, true⟩
 
 /-- What the tree under test does now (reflected). -/
 def Cfg.current : Cfg :=
   ⟨Generated.containerSetattrFullShape, Generated.containerStrictExempt, Generated.containerAddVariableChecksAttrs,
-   Generated.containerAddVariableChecksKeys⟩
+   Generated.containerAddVariableChecksKeys, Generated.containerAddAttributeChecksKeys⟩
 
 inductive Op where
   | addVariable (name : Name) (v : Operand) (dtype : Option Kind)
@@ -637,9 +644,10 @@ def addVariable (cfg : Cfg) (s : Store) (name : Name) (v : Operand) (dtype : Opt
         if firstDim a' ≠ s.n then (s, .raised .dimension)
         else ({ s with vars := s.vars ++ [(name, a')] }, .ok)
 
-def addAttribute (s : Store) (name : Name) : Store × Outcome :=
+def addAttribute (cfg : Cfg) (s : Store) (name : Name) : Store × Outcome :=
   if s.index.contains name then (s, .raised .duplicateName)
   else if s.attrs.contains name then (s, .raised .duplicateName)
+  else if cfg.addAttrChecksKeys && s.dictKeys.contains name then (s, .raised .duplicateName)
   else ({ s with attrs := s.attrs ++ [name] }, .ok)
 
 /-- The length test of `__setattr__` on the array built from a sequence. -/
@@ -685,7 +693,7 @@ def setAttr (cfg : Cfg) (s : Store) (name : Name) (v : Operand) (alts : List Nam
     | none =>
       if name == "strict" then ({ s with strict := truthy v, attrs := appendNew s.attrs name }, .ok)
       else if s.attrs.contains name then (s, .ok)
-      else ({ s with attrs := s.attrs ++ [name] }, .ok)
+      else addAttribute cfg s name          -- `self.add_attribute(name, value)`
     | some ser => assignWhole cfg s name ser v
 
 def setItem (cfg : Cfg) (s : Store) (name : Name) (v : Operand) : Store × Outcome :=
@@ -847,7 +855,7 @@ def setStrict (cfg : Cfg) (s : Store) (b : Bool) (alts : List Name) : Store × O
 /-- One public operation. -/
 def step (cfg : Cfg) (s : Store) : Op → Store × Outcome
   | .addVariable name v dtype => addVariable cfg s name v dtype
-  | .addAttribute name => addAttribute s name
+  | .addAttribute name => addAttribute cfg s name
   | .setAttr name v alts => setAttr cfg s name v alts
   | .setItem name v => setItem cfg s name v
   | .setPos name i v => setPos s name i v
